@@ -26,18 +26,25 @@ package main
 // Symbolic values. The analysis runs on go/ssa in NaiveForm, where every named local is a memory cell. A load
 // of a local cell is resolved to the value stored into it when the cell does not escape (only loaded, stored and
 // field-addressed) and the store is unique and dominates the load; composite literals are resolved field by
-// field. Everything else (phi, loads of escaping cells, multi-store cells) is an opaque value that matches only
-// `_`. Heap reads (p.f, s[i]) are symbolic terms over their base; two occurrences are taken to be equal when
-// their terms are equal (assumption, reported with the obligation: the heap location is not written between the
-// guard and the call; the analysis checks that the carrying function itself contains no store to such a field).
+// field; a cell with several stores is the opaque value "current content of that variable" (equal to itself).
+// Escaping cells, phis and loads through computed addresses are opaque values that match only `_`. Heap reads
+// (p.f, s[i], m[k]) are symbolic terms over their base; two occurrences are taken to be equal when their terms are
+// equal (assumption, reported with the obligation: the heap location is not written between the guard and the
+// call; the analysis checks that the carrying function itself contains no store to such a struct field).
 //
-// Soundness of "same value": every definition point D (store, call, load) of a value shared by guard and call
-// either dominates the guard block X, or is edge-dominated by the guarded edge and dominates the call block U.
-// With U edge-dominated by the guarded edge X->F: on every path, after the LAST execution of X before U the edge
-// taken is X->F, no definition point of the first kind is re-executed between that X and U, and the last
-// execution of a definition point of the second kind before U lies after that X. (Proof sketch: otherwise
-// splice the offending suffix after a shortest entry path, which contains neither the edge nor D, and contradict
-// the dominance premise.) Hence guard and call see the same dynamic instances.
+// Soundness. Let X be the block of the guarding `if` and X->F the edge with the stated outcome.
+//  (1) Edge dominance: every entry-to-call path traverses X->F (checked by deleting the edge and testing
+//      reachability). Then on every path the LAST execution of X before the call U takes X->F: otherwise splice
+//      the suffix after that X onto a shortest entry->X path (which cannot use an edge leaving X) and obtain an
+//      entry->U path avoiding the edge.
+//  (2) Same value: every definition point (store into a local cell, allocation of the cell, call instruction) of a
+//      value that occurs on the guard side or is bound to a metavariable must not lie in the segment between the
+//      guarded edge and the call, i.e. on no path F ... U that avoids X (computed by forward reachability from F
+//      and backward reachability from U, both without X; if U's block lies on a cycle avoiding X the whole block
+//      counts). By (1) the path from the last X to U is such a segment, so none of these definition points
+//      executes between the evaluation of the guard and the call: guard and call see the same dynamic values.
+//      Values that occur only on the call side (e.g. the log returned by getPartitionLog after the guard) need no
+//      such condition; their own sub-values that are bound to metavariables do.
 
 import (
 	"fmt"
@@ -373,6 +380,24 @@ type guardAnalysis struct {
 	fn    *ssa.Function
 	memo  map[ssa.Value]*gsym
 	notes map[string]bool
+	// nested: call instructions matched by call patterns while matching the current site's arguments
+	nested []nestedCall
+}
+
+// nestedCall: a call instruction matched by a nested call pattern together with the metavariables that occur in
+// that pattern's arguments (the values that were read when the nested call was made).
+type nestedCall struct {
+	ci   ssa.Instruction
+	vars map[string]bool
+}
+
+func patVars(p *gpat, out map[string]bool) {
+	if p.kind == "var" {
+		out[p.name] = true
+	}
+	for _, a := range p.args {
+		patVars(a, out)
+	}
 }
 
 func instrBefore(a, b ssa.Instruction) bool {
@@ -823,6 +848,15 @@ func (ga *guardAnalysis) match(p *gpat, s *gsym, b gbind) bool {
 				return false
 			}
 		}
+		if ci, ok := t.ref.(ssa.Instruction); ok {
+			vs := map[string]bool{}
+			for _, a := range p.args {
+				patVars(a, vs)
+			}
+			if len(vs) > 0 {
+				ga.nested = append(ga.nested, nestedCall{ci, vs})
+			}
+		}
 		return true
 	case "struct":
 		if s.kind != "struct" || len(s.args) != len(p.args) {
@@ -896,8 +930,9 @@ func edgeDominatesInstr(fn *ssa.Function, x *ssa.BasicBlock, k int, d ssa.Instru
 type segment struct {
 	blocks map[*ssa.BasicBlock]bool // blocks entirely inside
 	u      ssa.Instruction
-	uWhole bool // u's block lies on a cycle avoiding x: all of it is inside
-	uIn    bool // u's block is reachable from the edge at all
+	after  ssa.Instruction // set for newSegmentAfter: the segment starts right after this instruction
+	uWhole bool            // u's block lies on a cycle avoiding x: all of it is inside
+	uIn    bool            // u's block is reachable from the edge at all
 }
 
 func newSegment(fn *ssa.Function, x *ssa.BasicBlock, k int, u ssa.Instruction) *segment {
@@ -946,7 +981,71 @@ func newSegment(fn *ssa.Function, x *ssa.BasicBlock, k int, u ssa.Instruction) *
 	return sg
 }
 
+// newSegmentAfter: the instructions that can execute after instruction c and before u on a path that does not
+// execute c again.
+func newSegmentAfter(c, u ssa.Instruction) *segment {
+	sg := &segment{blocks: map[*ssa.BasicBlock]bool{}, u: u, after: c}
+	cb, ub := c.Block(), u.Block()
+	fwd := map[*ssa.BasicBlock]bool{}
+	var work []*ssa.BasicBlock
+	for _, sc := range cb.Succs {
+		if sc != cb && !fwd[sc] {
+			fwd[sc] = true
+			work = append(work, sc)
+		}
+	}
+	for len(work) > 0 {
+		b := work[len(work)-1]
+		work = work[:len(work)-1]
+		for _, sc := range b.Succs {
+			if sc != cb && !fwd[sc] {
+				fwd[sc] = true
+				work = append(work, sc)
+			}
+		}
+	}
+	bwd := map[*ssa.BasicBlock]bool{ub: true}
+	work = []*ssa.BasicBlock{ub}
+	for len(work) > 0 {
+		b := work[len(work)-1]
+		work = work[:len(work)-1]
+		if b == cb {
+			continue
+		}
+		for _, pr := range b.Preds {
+			if !bwd[pr] {
+				bwd[pr] = true
+				if pr != cb {
+					work = append(work, pr)
+				}
+			}
+		}
+	}
+	for b := range fwd {
+		if bwd[b] && b != ub && b != cb {
+			sg.blocks[b] = true
+		}
+	}
+	sg.uIn = fwd[ub] || ub == cb
+	for _, sc := range ub.Succs {
+		if ub != cb && sc != cb && (sc == ub || (fwd[sc] && bwd[sc])) {
+			sg.uWhole = true
+		}
+	}
+	return sg
+}
+
 func (sg *segment) contains(d ssa.Instruction) bool {
+	if sg.after != nil && d.Block() == sg.after.Block() {
+		// the block of the starting instruction: what follows it (up to u when u is in the same block)
+		if !instrBefore(sg.after, d) {
+			return false
+		}
+		if sg.u.Block() == sg.after.Block() {
+			return instrBefore(d, sg.u)
+		}
+		return true
+	}
 	b := d.Block()
 	if b == nil {
 		return false
@@ -1061,6 +1160,7 @@ func (e *Engine) checkGuarded(s *State, fn *ssa.Function, c *FuncContract) {
 				}
 				bind := gbind{}
 				okShape := true
+				ga.nested = nil
 				for i := range args {
 					if !ga.match(g.Callee.args[i], args[i], bind) {
 						bad = append(bad, fmt.Sprintf("%s: argument %d is %s, not of the shape %s", pos, i, args[i], g.Callee.args[i]))
@@ -1071,10 +1171,32 @@ func (e *Engine) checkGuarded(s *State, fn *ssa.Function, c *FuncContract) {
 				if !okShape {
 					continue
 				}
+				siteNested := append([]nestedCall(nil), ga.nested...)
+				// values bound inside the arguments of an earlier call whose RESULT is used here (f(g($t)) patterns) must
+				// be stable from that call to this site: the call may lie before the guard
+				for _, nc := range siteNested {
+					ci := nc.ci
+					sg := newSegmentAfter(ci, in)
+					for vn, v := range bind {
+						if !nc.vars[vn] {
+							continue
+						}
+						for _, d := range v.defs {
+							if d != ci && d != in && sg.contains(d) {
+								bad = append(bad, fmt.Sprintf("%s: value %s bound at the call at %s may be redefined at %s before it is used here", pos, v, posString(e.fset, ci.Pos()), posString(e.fset, d.Pos())))
+								okShape = false
+							}
+						}
+					}
+				}
+				if !okShape {
+					continue
+				}
 				found := false
 				why := "no dominating guard " + g.Guard.String() + " with the stated outcome"
 				for _, gs := range ifs {
 					gb := copyBind(bind)
+					ga.nested = nil
 					cond := gs.cond
 					var condArgs *gsym
 					switch g.Guard.kind {
@@ -1115,6 +1237,23 @@ func (e *Engine) checkGuarded(s *State, fn *ssa.Function, c *FuncContract) {
 					// same dynamic instances: no definition point of a value shared by guard and call (metavariable
 					// bindings, the guard's own operands) may execute on the path segment from the guarded edge to the call
 					okDefs := true
+					// values bound inside the arguments of a call nested in the guard (allowTopics(.., topicsOf($r), ..))
+					// must be stable from that nested call to the guarded site
+					for _, nc := range ga.nested {
+						ci := nc.ci
+						sg2 := newSegmentAfter(ci, in)
+						for vn, v := range gb {
+							if !nc.vars[vn] {
+								continue
+							}
+							for _, d := range v.defs {
+								if d != ci && d != in && sg2.contains(d) {
+									okDefs = false
+									why = fmt.Sprintf("value %s bound at the nested call at %s may be redefined at %s before the guarded call", v, posString(e.fset, ci.Pos()), posString(e.fset, d.Pos()))
+								}
+							}
+						}
+					}
 					var shared []*gsym
 					for _, v := range gb {
 						shared = append(shared, v)
